@@ -28,7 +28,7 @@ class Prop(PropBase):
 
     def generate(self, rng, tier):
         out = []
-        base = 20000 + (os.getpid() * 19) % 20000
+        base = 16000 + (os.getpid() % 30) * 100      # a port block of this property only, below the ephemeral range
         # ---- kernel: BPF predicate vs libpcap
         ks = []
         for _ in range(150 if tier == 'quick' else 3000):
